@@ -2,6 +2,7 @@ import KyberModel.Props.C04
 import KyberModel.Lib.DecodeComplete
 import KyberModel.Lib.WeierstrassFacts
 import KyberModel.Lib.BlsG2RoundTrip
+import KyberModel.Lib.BlsG2Complete
 /-
 # C03, continued — round trip and injectivity for the remaining encodings
 
@@ -11,8 +12,8 @@ import KyberModel.Lib.BlsG2RoundTrip
 * BLS12-381 G1 in the ZCash compressed form (a square root is recomputed on decoding: completeness of
   `a^((p+1)/4)` for `p ≡ 3 mod 4` and the "larger root" flag, `Lib/DecodeComplete.lean`),
 * BN256 G2 and BN254 G2 (four 32-byte coordinates over `Fp2`; BN254 also tests the order),
-* BLS12-381 G2 in the compressed form (96 bytes; for every value the decoder accepts — completeness of the
-  `Fp2` square root for arbitrary valid points is not proved),
+* BLS12-381 G2 in the compressed form (96 bytes; for every value the decoder accepts, and — completeness of the
+  norm-method square root in `Fp2`, `Lib/BlsG2Complete.lean` — for EVERY valid point of the subgroup),
 * residue (Schnorr) groups such as QR512 (big-endian, padded to the length of the modulus).
 
 The hypotheses are the decidable validity predicates of the reference models, which the generators and
@@ -176,6 +177,24 @@ theorem enc_injective (P Q : Fp2.Pt) (hP : Accepted P) (hQ : Accepted Q) (h : en
 
 /-- Non-vacuity: the generator is an accepted value. -/
 example : Accepted g2Base := ⟨encG2 g2Base, TwistFacts.bls_base_roundtrip⟩
+
+/-- A valid member of G2: reduced coordinates, on the twist, killed by the group order. -/
+def ValidMember (P : Fp2.Pt) : Prop := TwistModel.Valid twist P ∧ Fp2.smul twist r P = none
+
+/-- **Round trip of every valid member** (not only of decoder outputs): the square root recomputed by the decoder
+    exists for every point of the twist, and the flag selects the original `y`. -/
+theorem roundtrip_valid (P : Fp2.Pt) (hP : ValidMember P) : decG2 (encG2 P) = some P :=
+  BlsG2Dec.decG2_enc_of_valid P hP.1 hP.2
+
+/-- Accepted values and valid members are the same set. -/
+theorem accepted_iff_valid (P : Fp2.Pt) : Accepted P ↔ ValidMember P :=
+  ⟨fun ⟨bs, h⟩ => BlsG2Dec.decG2_valid bs P h, fun h => ⟨encG2 P, roundtrip_valid P h⟩⟩
+
+theorem enc_injective_valid (P Q : Fp2.Pt) (hP : ValidMember P) (hQ : ValidMember Q) (h : encG2 P = encG2 Q) : P = Q :=
+  inj_of_roundtrip encG2 decG2 ValidMember roundtrip_valid P Q hP hQ h
+
+/-- Non-vacuity: the generator is a valid member. -/
+example : ValidMember g2Base := (accepted_iff_valid g2Base).mp ⟨encG2 g2Base, TwistFacts.bls_base_roundtrip⟩
 end BLSG2
 
 /-! ### Residue groups -/
